@@ -446,7 +446,82 @@ def create_service_tables(ctx):
     ctx.inst('TMR.create-rows', n)
 
 
+def equal_expiry_merge(ctx):
+    """(m) COTmrInsert orders the new interval against the accumulated time of the pending events with three outcomes:
+    earlier (own event in front), later (walk on / append), EQUAL (the action joins the existing event).  Equality must
+    reach the merge branch from every position: every relational comparison between the new interval and the accumulated
+    time is strict, and an equality test guards the append behind ActionEnd.  A non-strict comparison gives an action that
+    falls due together with a pending event its own event and leaves the neighbour with Delta 0 - the hardware timer is
+    then loaded with 0 and that event and everything behind it never fires."""
+    m = ctx.m
+    f = 'COTmrInsert'
+    m.need(f)
+    props = ['C08', 'C10']
+    fn = m.funcs[f]
+    ints = [p for p in fn.params if not is_pointer_type(p[2])]
+    if len(ints) != 1:
+        ctx.broke(props, 'COTmrInsert: expected exactly one integer parameter (the new interval)')
+        return
+    pid = ints[0][3]
+    g = m.cfg(f)
+    rel = []
+    eq = []
+    for node in g.nodes:
+        if node.kind != 'br' or node.x is None:
+            continue
+        x = strip(node.x)
+        if x.k == 'bin' and x.op in ('<', '<=', '>', '>=', '==', '!='):
+            a, b = strip(x.kids[0]), strip(x.kids[1])
+            for (u, v) in ((a, b), (b, a)):
+                if u.k == 'ref' and u.ref == pid and v.k == 'ref' and v.refk == 'VarDecl':
+                    (eq if x.op in ('==', '!=') else rel).append((node, x))
+    ctx.inst('TMR.insert-comparisons', len(rel) + len(eq))
+    ctx.require_min(props, 'RF15-equal-merge', len(rel), 2, 'relational comparisons of the new interval in COTmrInsert')
+    for (node, x) in rel:
+        site = '%s: %s' % (m.loc(f, node.line), show(x))
+        if x.op in ('<', '>'):
+            ctx.ob(props, 'RF15-equal-merge', f, site, 'strict')
+        else:
+            ctx.ob(props, 'RF15-equal-merge', f, site, None)
+            ctx.find(props, 'RF15-equal-merge', f, 'non-strict-comparison', m.loc(f, node.line),
+                     '%s is not strict: an action that falls due exactly together with a pending event does not join that event '
+                     '(it gets its own event, the neighbour is left with Delta 0 and never fires / or it is queued behind it)' % show(x))
+    # the equality branch appends behind the tail
+    ok = False
+    for (node, x) in eq:
+        lab = (x.op == '==')
+        for (t, l) in node.succ:
+            if l != lab:
+                continue
+            seen = set()
+            st = [t]
+            while st:
+                a = st.pop()
+                if a in seen:
+                    continue
+                seen.add(a)
+                nd = g.nodes[a]
+                if nd.x is not None and m.field_stores(nd.x, TAIL):
+                    ok = True
+                if nd.kind in ('br', 'exit', 'ret'):
+                    continue
+                st.extend(tt for (tt, ll) in nd.succ)
+    site = 'COTmrInsert: equal expiry joins the pending event'
+    if ok:
+        ctx.ob(props, 'RF15-equal-merge', f, site, 'equality test guards the append behind ActionEnd')
+    else:
+        ctx.ob(props, 'RF15-equal-merge', f, site, None)
+        ctx.find(props, 'RF15-equal-merge', f, 'no-merge-branch', m.loc(f, fn.line),
+                 'no equality test of the new interval against the accumulated time guards an append behind ActionEnd')
+
+
+def is_pointer_type(cty):
+    from canalyze.ir import is_pointer
+    return is_pointer(cty)
+
+
 def run(ctx):
+    equal_expiry_merge(ctx)
     create_service_tables(ctx)
     head_delta(ctx)
     tail_pointer(ctx)
